@@ -9,7 +9,8 @@ from ..mon import exec_mon
 from ..ref import refcoerce
 
 RULE = (
-    "for generated code-built schemas (coded enums, defaults of enum / quoted string / list / input "
+    "for generated code-built schemas (a third of the types instances of trivial subclasses of the "
+    "library's classes; coded enums, defaults of enum / quoted string / list / input "
     "object / float / boolean / null kind, deprecations, abstract types, custom directives) the "
     "standard introspection_query() answer and focused __type(name:) queries (includeDeprecated "
     "true / false / default), alone and mixed with ordinary fields, under the blocking, generic, "
@@ -17,8 +18,9 @@ RULE = (
     "(R-INTROSPECT): kinds, names, descriptions, fields / arguments / input fields / enum values in "
     "declaration order, interfaces and possible types as sets, directives, roots, deprecation flags "
     "and reasons; every reported defaultValue must parse with parse_value and coerce (R-COERCE) to "
-    "the declared default; with disable_introspection=True nothing may be visible and ordinary "
-    "fields must be unaffected. Non-trivial = distinct (schema, query, configuration) for a schema "
+    "the declared default; with disable_introspection=True nothing may be visible (meta fields plain "
+    "and aliased, the aliased standard query) and ordinary fields - also under a '__' alias - must be "
+    "unaffected. Non-trivial = distinct (schema, query, configuration) for a schema "
     "with >= 1 default value, deprecation or abstract type."
 )
 ASSUMPTIONS = ["R-INTROSPECT renders the IR by the specification's introspection schema"]
